@@ -725,6 +725,11 @@ impl BitVector {
         start: usize,
         end: usize,
     ) -> Result<()> {
+        // An empty range touches nothing (and `end - 1` below needs end > 0)
+        if start == end {
+            return Ok(());
+        }
+
         let start_block = start / BITS_PER_BLOCK;
         let end_block = (end - 1) / BITS_PER_BLOCK;
 
